@@ -477,6 +477,10 @@ impl Driver for RealDriver {
 }
 
 fn do_remapping_loop_one_device(driver: &mut impl Driver, layout: Layout, verbose: bool) -> Result<(), String> {
+  // Verification seam (off by default): inside this function the clock and the
+  // back-off sleep are taken from the simulator instead of the OS.
+  #[cfg(ellbur_totalmapper_verif)] use self::verif_hooks::SimInstant as Instant;
+  #[cfg(ellbur_totalmapper_verif)] use self::verif_hooks::sim_thread as thread;
   let mut mapper = key_transforms::Mapper::for_layout(&layout);
   let mut working_repeat: WorkingRepeat = WorkingRepeat::Idle;
   
@@ -937,3 +941,100 @@ mod tests {
   }
 }
 
+// Verification hooks. Compiled only with `--cfg ellbur_totalmapper_verif`; with the
+// flag off nothing in this module exists and the shipped behaviour is unchanged.
+// It exposes (a) a public mirror of the private `Driver` trait plus an adapter so an
+// external simulator can drive the real per-device loop, and (b) a thread-local
+// simulated clock that replaces `Instant::now()` / `thread::sleep` inside that loop.
+#[cfg(ellbur_totalmapper_verif)]
+#[allow(dead_code)]
+pub mod verif_hooks {
+  use super::*;
+  use std::cell::Cell;
+
+  pub enum VPoll { Devices(Vec<VDevice>), TimedOut, Interrupted }
+  #[derive(Clone, Copy, Debug, PartialEq, Eq)]
+  pub enum VDevice { Keyboard, Tablet }
+  pub enum VNext<T> { End, Busy, One(T) }
+
+  pub trait VerifDriver {
+    fn register_poll(&mut self) -> Result<(), String>;
+    fn poll(&mut self, timeout: Option<std::time::Duration>) -> Result<VPoll, String>;
+    fn next_keyboard(&mut self) -> Result<VNext<Event>, String>;
+    /// `true` = tablet mode switched on, `false` = off
+    fn next_tablet(&mut self) -> Result<VNext<bool>, String>;
+    fn send(&mut self, evs: &Vec<Event>) -> Result<(), String>;
+  }
+
+  struct Adapter<'a, D: VerifDriver>(&'a mut D);
+
+  impl<'a, D: VerifDriver> Driver for Adapter<'a, D> {
+    type PollRegistry = ();
+    fn register_poll(&mut self) -> Result<(), String> { self.0.register_poll() }
+    fn poll(&mut self, _registry: &mut (), timeout: Option<Duration>) -> Result<PollResult, String> {
+      Ok(match self.0.poll(timeout)? {
+        VPoll::Devices(ds) => PollResult::DeviceEvent(ds.into_iter().map(|d| match d {
+          VDevice::Keyboard => Device::Keyboard,
+          VDevice::Tablet => Device::Tablet
+        }).collect()),
+        VPoll::TimedOut => PollResult::TimedOut,
+        VPoll::Interrupted => PollResult::Interrupted
+      })
+    }
+    fn next_keyboard(&mut self) -> Result<Next<Event>, String> {
+      Ok(match self.0.next_keyboard()? {
+        VNext::End => Next::End,
+        VNext::Busy => Next::Busy,
+        VNext::One(e) => Next::One(e)
+      })
+    }
+    fn next_tablet(&mut self) -> Result<Next<TableModeEvent>, String> {
+      Ok(match self.0.next_tablet()? {
+        VNext::End => Next::End,
+        VNext::Busy => Next::Busy,
+        VNext::One(on) => Next::One(if on { On } else { Off })
+      })
+    }
+    fn send(&mut self, evs: &Vec<Event>) -> Result<(), String> { self.0.send(evs) }
+  }
+
+  /// Runs the real (private) per-device loop on a simulated driver.
+  pub fn run_one_device<D: VerifDriver>(driver: &mut D, layout: Layout, verbose: bool) -> Result<(), String> {
+    do_remapping_loop_one_device(&mut Adapter(driver), layout, verbose)
+  }
+
+  thread_local! {
+    static SIM_NOW_US: Cell<u64> = Cell::new(0);
+    static SIM_SLEPT_US: Cell<u64> = Cell::new(0);
+    static SIM_NOW_READS: Cell<u64> = Cell::new(0);
+    static SIM_BASE: std::time::Instant = std::time::Instant::now();
+  }
+
+  pub fn sim_now_us() -> u64 { SIM_NOW_US.with(|c| c.get()) }
+  pub fn set_sim_now_us(v: u64) { SIM_NOW_US.with(|c| c.set(v)) }
+  /// total simulated time spent in the loop's back-off sleep on this thread
+  pub fn sim_slept_us() -> u64 { SIM_SLEPT_US.with(|c| c.get()) }
+  pub fn reset_sim_slept_us() { SIM_SLEPT_US.with(|c| c.set(0)) }
+  /// how often the loop read the clock on this thread
+  pub fn sim_now_reads() -> u64 { SIM_NOW_READS.with(|c| c.get()) }
+
+  /// Stand-in for `std::time::Instant` inside the loop: `now()` is a real
+  /// `std::time::Instant` (fixed per-thread base + simulated offset), so every
+  /// comparison and subtraction the loop performs is the shipped arithmetic.
+  pub struct SimInstant;
+  impl SimInstant {
+    pub fn now() -> std::time::Instant {
+      SIM_NOW_READS.with(|c| c.set(c.get() + 1));
+      SIM_BASE.with(|b| *b) + std::time::Duration::from_micros(sim_now_us())
+    }
+  }
+
+  /// Stand-in for `std::thread` inside the loop: sleeping advances the simulated clock.
+  pub mod sim_thread {
+    pub fn sleep(d: std::time::Duration) {
+      let us = d.as_micros() as u64;
+      super::set_sim_now_us(super::sim_now_us() + us);
+      super::SIM_SLEPT_US.with(|c| c.set(c.get() + us));
+    }
+  }
+}
